@@ -5,7 +5,7 @@ from hirai import OK, RET, PANIC, SOME, NONE, OKV, ERRV, some, none, unk
 
 
 class RTMod(symstr.SymStr):
-    vec_cap = 1000
+    vec_cap = 64
 
     def __init__(self, facts):
         super().__init__(facts)
